@@ -192,6 +192,9 @@ enum Obj {
     C(Cal),
     U(UnionCal),
     N(NamedCal),
+    /// the calendar container holding one of the above: compared through `CalType`, but PROJECTED through the calendar
+    /// it holds (the container must behave like what it contains)
+    T(Box<Obj>),
 }
 impl Obj {
     fn bus(&self, d: &NaiveDateTime) -> bool {
@@ -199,6 +202,7 @@ impl Obj {
             Obj::C(c) => c.is_bus_day(d),
             Obj::U(c) => c.is_bus_day(d),
             Obj::N(c) => c.is_bus_day(d),
+            Obj::T(b) => b.bus(d),
         }
     }
     fn stl(&self, d: &NaiveDateTime) -> bool {
@@ -206,6 +210,7 @@ impl Obj {
             Obj::C(c) => c.is_settlement(d),
             Obj::U(c) => c.is_settlement(d),
             Obj::N(c) => c.is_settlement(d),
+            Obj::T(b) => b.stl(d),
         }
     }
     fn kind(&self) -> &'static str {
@@ -213,11 +218,34 @@ impl Obj {
             Obj::C(_) => "Cal",
             Obj::U(_) => "UnionCal",
             Obj::N(_) => "NamedCal",
+            Obj::T(_) => "CalType",
+        }
+    }
+    fn caltype(&self) -> Option<rateslib::calendars::CalType> {
+        use rateslib::calendars::CalType;
+        match self {
+            Obj::T(b) => Some(match b.as_ref() {
+                Obj::C(c) => CalType::Cal(c.clone()),
+                Obj::U(c) => CalType::UnionCal(c.clone()),
+                Obj::N(c) => CalType::NamedCal(c.clone()),
+                Obj::T(_) => return None,
+            }),
+            _ => None,
         }
     }
 }
 /// a == b where the crate implements it (left operand UnionCal / NamedCal, or Cal against those)
 fn eq(a: &Obj, b: &Obj) -> Option<Outcome<bool>> {
+    if let Some(t) = b.caltype() {
+        return Some(match a {
+            Obj::U(x) => guard(|| *x == t),
+            Obj::N(x) => guard(|| *x == t),
+            _ => return None,
+        });
+    }
+    if let Obj::T(_) = a {
+        return None;
+    }
     Some(match (a, b) {
         (Obj::U(x), Obj::C(y)) => guard(|| x == y),
         (Obj::U(x), Obj::U(y)) => guard(|| x == y),
@@ -228,6 +256,7 @@ fn eq(a: &Obj, b: &Obj) -> Option<Outcome<bool>> {
         (Obj::C(x), Obj::U(y)) => guard(|| x == y),
         (Obj::C(x), Obj::N(y)) => guard(|| x == y),
         (Obj::C(_), Obj::C(_)) => return None, // structural equality of plain calendars is not this property
+        _ => return None,
     })
 }
 /// a.__eq__(b) as Python evaluates it (the `#[pymethods]` item, through the cfg-guarded hooks)
@@ -241,11 +270,13 @@ fn py_eq(a: &Obj, b: &Obj) -> Option<Outcome<bool>> {
         Obj::C(y) => CalType::Cal(y.clone()),
         Obj::U(y) => CalType::UnionCal(y.clone()),
         Obj::N(y) => CalType::NamedCal(y.clone()),
+        Obj::T(_) => b.caltype()?,
     };
     Some(match a {
         Obj::C(x) => guard(|| cpy::cal_eq(x, other)),
         Obj::U(x) => guard(|| cpy::union_eq(x, other)),
         Obj::N(x) => guard(|| cpy::named_eq(x, other)),
+        Obj::T(_) => return None,
     })
 }
 fn diffs(a: &Obj, b: &Obj) -> (Vec<i64>, Vec<i64>) {
@@ -288,7 +319,7 @@ pub fn equality(seed: u64, n: usize, out: &str) {
                 day += 1;
             }
         }
-        let variant = r.below(10);
+        let variant = r.below(12);
         let mut hols2 = hols.clone();
         let (a, b, what): (Obj, Obj, &str) = match variant {
             // identical behaviour, different structure
@@ -330,6 +361,16 @@ pub fn equality(seed: u64, n: usize, out: &str) {
                 }
                 hols2.push(dn(d));
                 (Obj::C(Cal::new(hols2, mask.clone())), Obj::U(UnionCal::new(vec![base.clone()], None)), "cal-vs-union-weekend-holiday")
+            }
+            10 => {
+                // the calendar container on the right: a named calendar with a settlement part against itself in the container
+                let s = format!("{}|fed", base_name);
+                (Obj::N(NamedCal::try_new(&s).unwrap()), Obj::T(Box::new(Obj::N(NamedCal::try_new(&s).unwrap()))), "named-vs-container-same")
+            }
+            11 => {
+                // ... and a union WITHOUT the settlement part against it: they differ where fed is closed
+                let s = format!("{}|fed", base_name);
+                (Obj::U(UnionCal::new(vec![base.clone()], None)), Obj::T(Box::new(Obj::N(NamedCal::try_new(&s).unwrap()))), "union-vs-container-settle")
             }
             9 => {
                 // a settlement part that restricts nothing ("all" has no closed day): same behaviour as the bare calendar,
